@@ -59,10 +59,11 @@ impl From<IncomplVarDecl> for VarDecl {
                     elements_init: vec![],
                 })
             }
+            // The specification says if this is a STRING or a WSTRING
             VariableSpecificationKind::String(node) => {
                 InitialValueAssignmentKind::String(StringInitializer {
                     length: node.length,
-                    width: StringType::String,
+                    width: node.width,
                     initial_value: None,
                     keyword_span: node.keyword_span,
                 })
@@ -70,7 +71,7 @@ impl From<IncomplVarDecl> for VarDecl {
             VariableSpecificationKind::WString(node) => {
                 InitialValueAssignmentKind::String(StringInitializer {
                     length: node.length,
-                    width: StringType::WString,
+                    width: node.width,
                     initial_value: None,
                     keyword_span: node.keyword_span,
                 })
